@@ -361,6 +361,7 @@ def eval_image(img, opener, calls, truth, m, mode='fresh', sibling=None):
             fs.replace_content(readers.FPATH, img)
         elif mode == 'session':
             readers.clear_caches()
+            cur[0] = next((c for c in calls if readers.applicable(kind, c)), None)    # (should open itself never return)
             try:
                 obj = readers.open_obj(fs, opener)
             except (core.SimAbort, core.HarnessError):
@@ -372,6 +373,7 @@ def eval_image(img, opener, calls, truth, m, mode='fresh', sibling=None):
                 if not readers.applicable(kind, call):
                     continue
                 fs.reqlog.clear()
+                cur[0] = call
                 if mode == 'session':
                     got = opened if obj is None else battery.outcome(lambda: battery.apply_call(obj, call))
                 else:
@@ -380,6 +382,8 @@ def eval_image(img, opener, calls, truth, m, mode='fresh', sibling=None):
         finally:
             if obj is not None:
                 readers.close_obj(obj)
+
+    cur = [None]
 
     def judge(call, got):
         if True:
@@ -393,7 +397,12 @@ def eval_image(img, opener, calls, truth, m, mode='fresh', sibling=None):
                     sec = section_of(m, off)
                     break
             bad.append((call, got, want, sec))
-    r = env.run_sim(fn, fs, core.SeqChooser(), step_cap=10 ** 8)
+    r = env.run_sim(fn, fs, core.SeqChooser(), step_cap=400000)
+    if r.status in ('stepcap', 'deadlock') and cur[0] is not None:
+        # the read neither raised nor returned (a loop that waits for bytes that will never come)
+        kind_ = readers.OPENERS[opener]['kind']
+        bad.append((cur[0], ('hang', r.status), truth[(kind_, repr(cur[0]))], 'none'))
+        return bad, n[0] + 1
     if r.status != 'ok':
         raise core.HarnessError(f'image evaluation ended with {r.status}: {r.exc!r}')
     return bad, n[0]
@@ -416,7 +425,8 @@ def calls_for(m, rng, n_extra):
 
 
 def signature(m, call, sec, got, mode='fresh'):
-    return f"{m['layout']}|{m['kind']}|{call[0]}|short-read-in-{sec}|returned" + ('' if mode == 'fresh' else '|' + mode)
+    how = 'never-returned' if got and got[0] == 'hang' else 'returned'
+    return f"{m['layout']}|{m['kind']}|{call[0]}|short-read-in-{sec}|{how}" + ('' if mode == 'fresh' else '|' + mode)
 
 
 def one_item(ctx, item):
